@@ -22,8 +22,137 @@ type c18Txn struct {
 }
 
 type c18X struct {
+	Stub  []c18StubTxn // non-nil: the peer is a scripted LMTP server (transactions the real server cannot produce: a refused DATA)
 	Txns  []c18Txn
 	Fault int // 0 none; the conversation is broken off: 1 Server.Close, 2 backend panic in one delivery, 3 failing reply writes, 4 a reply write blocked for ever
+}
+
+// c18StubTxn is one transaction against the scripted LMTP server.
+type c18StubTxn struct {
+	Rcpts    []string
+	RcptCode []int
+	Data     int   // the stub's reply to DATA
+	Finals   []int // per accepted recipient
+	UseCb    bool
+	DataOp   int
+	NoopOp   int
+	Reset    bool // the client calls Reset after a refused DATA (otherwise it goes straight to the next Mail)
+}
+
+// genC18Stub: the real LMTP client against a scripted server. What the real
+// server never does is refuse DATA after it accepted recipients; a client
+// must come out of that with an empty recipient list all the same.
+func genC18Stub(t *Tape, sc *Scenario, x *c18X) *Scenario {
+	cl := &ClientScript{LMTP: true}
+	stub := &StubScript{LMTP: []StubTxn{}}
+	ntx := 2 + t.Intn(2)
+	for m := 0; m < ntx; m++ {
+		tx := c18StubTxn{UseCb: t.Bool(), Data: 354}
+		if m < ntx-1 && t.Chance(1, 2) {
+			tx.Data = 452
+			tx.Reset = t.Bool()
+		}
+		st := StubTxn{Data: tx.Data}
+		cl.Ops = append(cl.Ops, ClientOp{Kind: opMail, Arg: fmt.Sprintf("ok-s%d@a.example", m)})
+		n := 1 + t.Intn(3)
+		for i := 0; i < n; i++ {
+			r := fmt.Sprintf("ok-t%dr%d@b.example", m, i)
+			code := 250
+			if i > 0 && t.Chance(1, 4) {
+				code = 550
+			}
+			tx.Rcpts = append(tx.Rcpts, r)
+			tx.RcptCode = append(tx.RcptCode, code)
+			st.Rcpt = append(st.Rcpt, code)
+			cl.Ops = append(cl.Ops, ClientOp{Kind: opRcpt, Arg: r})
+			if code == 250 {
+				f := []int{250, 250, 452, 550}[t.Intn(4)]
+				tx.Finals = append(tx.Finals, f)
+				st.Finals = append(st.Finals, f)
+			}
+		}
+		tx.DataOp = len(cl.Ops)
+		cl.Ops = append(cl.Ops, ClientOp{Kind: opData, Body: []byte(fmt.Sprintf("message %d\r\n", m)), UseCb: tx.UseCb})
+		if tx.Data != 354 && tx.Reset {
+			cl.Ops = append(cl.Ops, ClientOp{Kind: opReset})
+		}
+		tx.NoopOp = len(cl.Ops)
+		cl.Ops = append(cl.Ops, ClientOp{Kind: opNoop})
+		stub.LMTP = append(stub.LMTP, st)
+		x.Stub = append(x.Stub, tx)
+	}
+	cl.Ops = append(cl.Ops, ClientOp{Kind: opQuit})
+	cs := ConnScript{Lat: drawLat(t), LatBack: drawLat(t), Client: cl, Stub: stub}
+	cs.defaults()
+	if t.Bool() {
+		cs.SrvFaults.WriteSplit = []int{1 + t.Intn(20), 1 + t.Intn(5)}
+	}
+	sc.Conns = []ConnScript{cs}
+	sc.Strata = []string{fmt.Sprintf("stub/txns%d", ntx)}
+	return sc
+}
+
+func checkC18Stub(sc *Scenario, h *History, x *c18X) []Violation {
+	var out []Violation
+	ch := h.Conns[0]
+	if ch.Client == nil || len(ch.Client.Results) == 0 {
+		return []Violation{{Rule: "C18.harness", Detail: "client did not run"}}
+	}
+	res := ch.Client.Results
+	for ti, tx := range x.Stub {
+		wit := fmt.Sprintf("scripted server: txn=%d of %d rcpt=%v data=%d finals=%v cb=%v reset=%v", ti, len(x.Stub), tx.RcptCode, tx.Data, tx.Finals, tx.UseCb, tx.Reset)
+		v := func(rule, format string, a ...interface{}) {
+			if len(out) < 4 {
+				out = append(out, Violation{Rule: rule, Detail: fmt.Sprintf(format, a...), Witness: wit})
+			}
+		}
+		d := res[tx.DataOp]
+		if tx.Data != 354 {
+			if d.DataErr == "" {
+				v("C18.data", "transaction %d: the server refused DATA with %d but Data()/LMTPData() returned no error", ti, tx.Data)
+			}
+		} else {
+			if d.DataErr != "" || d.WriteErr != "" {
+				v("C18.data", "transaction %d: DATA failed: %q %q", ti, d.DataErr, d.WriteErr)
+				continue
+			}
+			if d.End-d.Begin > int64(time.Minute) {
+				v("C18.close-waits", "transaction %d: Close returned after %v of fake time (err=%q): it waited for replies that never come", ti, time.Duration(d.End-d.Begin), d.Err)
+			}
+			var want []string
+			allOK := true
+			k := 0
+			for i, r := range tx.Rcpts {
+				if tx.RcptCode[i] != 250 {
+					continue
+				}
+				want = append(want, fmt.Sprintf("%s=%d", r, tx.Finals[k]))
+				if tx.Finals[k] != 250 {
+					allOK = false
+				}
+				k++
+			}
+			if tx.UseCb {
+				if fmt.Sprint(d.Statuses) != fmt.Sprint(want) {
+					v("C18.statuses", "transaction %d: the callback reported %v, the server answered %v", ti, d.Statuses, want)
+				}
+				if d.Err != "" && d.End-d.Begin <= int64(time.Minute) {
+					v("C18.close-error", "transaction %d: Close with a callback returned %q", ti, d.Err)
+				}
+			} else {
+				if allOK && d.Err != "" && d.End-d.Begin <= int64(time.Minute) {
+					v("C18.close-error", "transaction %d: every recipient was accepted but Close returned %q", ti, d.Err)
+				}
+				if !allOK && d.Err == "" {
+					v("C18.refusal-lost", "transaction %d: recipients were refused after DATA (%v) but Close without a callback returned nil", ti, tx.Finals)
+				}
+			}
+		}
+		if tx.NoopOp < len(res) && res[tx.NoopOp].Err != "" {
+			v("C18.desync", "transaction %d: the NOOP after it failed: %s", ti, res[tx.NoopOp].Err)
+		}
+	}
+	return out
 }
 
 func genC18(t *Tape, tier string) *Scenario {
@@ -35,6 +164,9 @@ func genC18(t *Tape, tier string) *Scenario {
 	sc.BE.Flavor = beLMTP
 	x := &c18X{}
 	sc.X = x
+	if !t.HasOver("c18ntx") && t.Chance(1, 5) {
+		return genC18Stub(t, sc, x)
+	}
 	cl := &ClientScript{LMTP: true}
 	var cp ConnBackendPlan
 	ntx := 1 + t.Named("c18ntx", 3)
@@ -146,6 +278,9 @@ func genC18(t *Tape, tier string) *Scenario {
 func checkC18(sc *Scenario, h *History) []Violation {
 	var out []Violation
 	x := sc.X.(*c18X)
+	if x.Stub != nil {
+		return checkC18Stub(sc, h, x)
+	}
 	ch := h.Conns[0]
 	if ch.Client == nil {
 		return []Violation{{Rule: "C18.harness", Detail: "client did not run"}}
@@ -257,6 +392,20 @@ func checkC18(sc *Scenario, h *History) []Violation {
 
 func classifyC18(sc *Scenario, h *History, st *Stats) string {
 	x := sc.X.(*c18X)
+	if x.Stub != nil {
+		st.Probes["scripted_lmtp_server"]++
+		var key []string
+		for i, tx := range x.Stub {
+			if tx.Data != 354 {
+				st.Faults["DATA_refused_after_recipients_were_accepted"]++
+				if i+1 < len(x.Stub) && !tx.Reset {
+					st.Probes["next_Mail_without_Reset_after_refused_DATA"]++
+				}
+			}
+			key = append(key, fmt.Sprintf("%v/%d/%v/%v/%v", tx.RcptCode, tx.Data, tx.Finals, tx.UseCb, tx.Reset))
+		}
+		return "stub" + fmt.Sprint(key)
+	}
 	if len(x.Txns) > 1 {
 		st.Probes["second_or_later_transaction"]++
 	}
@@ -305,9 +454,9 @@ func init() {
 			return out
 		},
 		Real:        []string{"smtp.Client (NewClientLMTP, Mail, Rcpt, LMTPData, Data, dataCloser.Close, Noop, Quit)", "smtp.Server in LMTP mode, handleDataLMTP, statusCollector", "net/textproto"},
-		Stub:        []string{"net.Listener (SimListener)", "net.Conn (SimConn)", "Backend/LMTPSession (SimBackend)", "clock (synctest): a Close that waits for replies that never come costs 12 fake minutes and is detected as such"},
+		Stub:        []string{"net.Listener (SimListener)", "net.Conn (SimConn)", "Backend/LMTPSession (SimBackend)", "in a fifth of the seeded runs the peer is a scripted LMTP server instead of smtp.Server (it can refuse DATA after accepting recipients, which the real server never does)", "clock (synctest): a Close that waits for replies that never come costs 12 fake minutes and is detected as such"},
 		Assumptions: []string{"'Close returns once exactly those replies have been read' is judged as: within one fake minute, and the following NOOP gets its own reply"},
-		Required:    []string{"second_or_later_transaction", "recipient_refused_after_DATA", "recipient_refused_at_RCPT", "per_recipient_reply_later_than_CommandTimeout", "message_produced_slower_than_CommandTimeout", "conversation_broken_off_by_Server.Close", "conversation_broken_off_by_backend_panic", "conversation_broken_off_by_failing_reply_write", "conversation_broken_off_by_blocked_reply_write"},
+		Required:    []string{"second_or_later_transaction", "recipient_refused_after_DATA", "recipient_refused_at_RCPT", "per_recipient_reply_later_than_CommandTimeout", "message_produced_slower_than_CommandTimeout", "conversation_broken_off_by_Server.Close", "conversation_broken_off_by_backend_panic", "conversation_broken_off_by_failing_reply_write", "conversation_broken_off_by_blocked_reply_write", "DATA_refused_after_recipients_were_accepted", "next_Mail_without_Reset_after_refused_DATA"},
 		QuickRuns:   120000, ThoroughRuns: 2000000,
 	})
 }
